@@ -219,13 +219,17 @@ class C09(Monitor):
                 st = dict(case["settings"], clear=False, shrink=False)
                 for key in ("enter", "exit"):
                     if isinstance(st.get(key), (list, tuple)):
-                        st[key] = "\n".join(st[key]) + "\n"
+                        # the way a user types a script: comment-only lines, blank lines, indentation, CRLF
+                        st[key] = "; %s script\r\n\r\n  " % key + "\n   ; step\n".join(st[key]) + " ; done\n;\n"
                 plug = Plugin(st)
                 for r in case["regions"]:
                     plug.api("addExcludeRegion", region_payload(r))
                 plug.event("PrintStarted")
                 core = plug
+            ncmds = len(case["cmds"])
             for i, cmd in enumerate(case["cmds"]):
+                if plug is not None and ncmds > 8 and i in (ncmds // 3, ncmds // 3 + 4):
+                    plug.event("PrintPaused" if i == ncmds // 3 else "PrintResumed")     # pause / resume do not end the job
                 gc, sub = hook_gcode(cmd)
                 if gc is None:
                     continue
